@@ -69,8 +69,14 @@ import (
 var c09Observe func(w *c09World, point string, delivered []RegionVerID)
 
 // c09WBOp is an optional extra workload step supplied by the white-box
-// extension (direct manipulation of sync flags / TTL of cached entries).
+// extension (direct manipulation of sync flags / TTL of cached entries, an
+// explicit GC round).
 var c09WBOp func(w *c09World, rng *rand.Rand) string
+
+// c09NewCache, when set by the white-box extension, builds the cache (there:
+// one without the background GC, so that every change of the index happens in
+// the driver goroutine and the GC is an explicit workload step).
+var c09NewCache func(w *c09World, pdc pd.Client) *RegionCache
 
 // ---------------------------------------------------------------- process setup
 
@@ -269,17 +275,22 @@ type c09World struct {
 	// store never answers from a half-applied change.
 	topoMu sync.RWMutex
 
-	mu       sync.Mutex // guards everything below
-	snaps    []*c09Snap
-	registry map[RegionVerID]c09Range // decoded ranges of every region version that ever existed
-	allIDs   []uint64
-	seenVers []RegionVerID // region versions returned by lookups (targets for invalidation)
-	pdRng    *rand.Rand
-	pStale   float64
-	pGap     float64 // a scan answer lacks one region (a freshly split region that has not reported to PD yet)
-	noBatch  bool    // BatchScanRegions answers Unimplemented (fallback path)
-	oplog    []string
-	layouts  map[string]struct{}
+	mu        sync.Mutex // guards everything below
+	snaps     []*c09Snap
+	registry  map[RegionVerID]c09Range // decoded ranges of every region version that ever existed
+	allIDs    []uint64
+	seenVers  []RegionVerID // region versions returned by lookups (targets for invalidation)
+	pdRng     *rand.Rand
+	pStale    float64
+	pGap      float64 // a scan answer lacks one region (a freshly split region that has not reported to PD yet)
+	forceSnap int     // >=0: the next PD region answer is computed from this snapshot (then reset)
+	// targeting of the next change (used by scripted motifs; zero values = random)
+	tgtRegion   uint64
+	tgtKey      string
+	forceDerive int  // split: 1 = the original id keeps the left half, 2 = it keeps the right half (TiKV's right-derive)
+	noBatch     bool // BatchScanRegions answers Unimplemented (fallback path)
+	oplog       []string
+	layouts     map[string]struct{}
 
 	concurrent   atomic.Bool
 	staleServed  atomic.Int64 // stale PD answers since the cache was created
@@ -296,7 +307,7 @@ type c09World struct {
 func c09NewWorld(r *vrep.Report, desc string, rng *rand.Rand, mvcc mocktikv.MVCCStore, txn bool, nStores int) *c09World {
 	c09Setup()
 	w := &c09World{r: r, desc: desc, txn: txn, mvcc: mvcc, stopped: map[uint64]bool{},
-		registry: map[RegionVerID]c09Range{}, layouts: map[string]struct{}{}, keys: c09Keys, cands: c09SplitCands}
+		registry: map[RegionVerID]c09Range{}, layouts: map[string]struct{}{}, keys: c09Keys, cands: c09SplitCands, forceSnap: -1}
 	var mode apicodec.Mode = apicodec.ModeRaw
 	if txn {
 		mode = apicodec.ModeTxn
@@ -430,8 +441,14 @@ func (w *c09World) change(rng *rand.Rand, kind int) string {
 		}
 		var cs []cand
 		for _, r := range cur.regs {
+			if w.tgtRegion != 0 && r.Meta.Id != w.tgtRegion {
+				continue
+			}
 			s, e := w.dec(r.Meta.StartKey), w.dec(r.Meta.EndKey)
 			for _, k := range w.cands {
+				if w.tgtKey != "" && k != w.tgtKey {
+					continue
+				}
 				if bytes.Compare(s, []byte(k)) < 0 && (len(e) == 0 || bytes.Compare([]byte(k), e) < 0) {
 					cs = append(cs, cand{r, k})
 				}
@@ -441,6 +458,10 @@ func (w *c09World) change(rng *rand.Rand, kind int) string {
 			return ""
 		}
 		c := cs[rng.Intn(len(cs))]
+		rightDerive := rng.Intn(2) == 0
+		if w.forceDerive != 0 {
+			rightDerive = w.forceDerive == 2
+		}
 		newID := w.cluster.AllocID()
 		peerIDs := w.cluster.AllocIDs(len(c.r.Meta.Peers))
 		li := 0
@@ -459,7 +480,25 @@ func (w *c09World) change(rng *rand.Rand, kind int) string {
 		// where it already follows the rule this is a no-op).
 		w.setEpoch(c.r.Meta.Id, ep.GetConfVer(), ep.GetVersion()+1)
 		w.setEpoch(newID, ep.GetConfVer(), ep.GetVersion()+1)
-		desc = fmt.Sprintf("split r%d at %s -> new r%d", c.r.Meta.Id, c.k, newID)
+		side := "left"
+		if rightDerive {
+			// TiKV's default (right-derive-when-split): the original region id keeps the
+			// RIGHT half, the new id takes the left one.  mocktikv always gives the
+			// original id the left half, so the two ranges are swapped under the lock.
+			side = "right"
+			w.cluster.Lock()
+			for _, r := range w.cluster.GetAllRegions() {
+				switch r.Meta.Id {
+				case c.r.Meta.Id:
+					r.Meta.StartKey, r.Meta.EndKey = w.enc([]byte(c.k)), c.r.Meta.EndKey
+				case newID:
+					r.Meta.StartKey, r.Meta.EndKey = c.r.Meta.StartKey, w.enc([]byte(c.k))
+				}
+			}
+			w.cluster.Unlock()
+			w.r.Count("topo_split_right_derive", 1)
+		}
+		desc = fmt.Sprintf("split r%d at %s -> new r%d (original id keeps the %s half)", c.r.Meta.Id, c.k, newID, side)
 		w.r.Count("topo_split", 1)
 	case 1: // merge (the left region survives and absorbs its right neighbour)
 		if len(cur.regs) < 2 {
@@ -503,6 +542,9 @@ func (w *c09World) change(rng *rand.Rand, kind int) string {
 		}
 		var cs []cand
 		for _, r := range cur.regs {
+			if w.tgtRegion != 0 && r.Meta.Id != w.tgtRegion {
+				continue
+			}
 			for _, s := range w.storeIDs {
 				has := false
 				for _, p := range r.Meta.Peers {
@@ -525,6 +567,9 @@ func (w *c09World) change(rng *rand.Rand, kind int) string {
 	case 4: // remove peer (a removed leader is replaced at once: regions always have a leader)
 		var cs []*router.Region
 		for _, r := range cur.regs {
+			if w.tgtRegion != 0 && r.Meta.Id != w.tgtRegion {
+				continue
+			}
 			if len(r.Meta.Peers) >= 2 {
 				cs = append(cs, r)
 			}
@@ -641,7 +686,11 @@ func (w *c09World) newCache() {
 	if w.txn {
 		pdc = NewCodecPDClient(apicodec.ModeTxn, w.pdc)
 	}
-	w.cache = NewRegionCache(pdc, RegionCacheNoHealthTick)
+	if c09NewCache != nil {
+		w.cache = c09NewCache(w, pdc)
+	} else {
+		w.cache = NewRegionCache(pdc, RegionCacheNoHealthTick)
+	}
 	w.staleServed.Store(0)
 	w.changes.Store(0)
 	w.mu.Lock()
@@ -692,6 +741,18 @@ func (p *c09PD) pick(what string) *c09Snap {
 	w.mu.Lock()
 	n := len(w.snaps)
 	s := w.snaps[n-1]
+	if f := w.forceSnap; f >= 0 && f < n {
+		w.forceSnap = -1
+		s = w.snaps[f]
+		w.mu.Unlock()
+		if f != n-1 {
+			w.staleServed.Add(1)
+			w.r.Count("pd_stale_answers", 1)
+			w.r.Count("pd_scripted_stale_answers", 1)
+			w.logf("  PD %s answered from snapshot #%d (current #%d, scripted)", what, s.seq, n-1)
+		}
+		return s
+	}
 	if n > 1 && w.pStale > 0 && w.pdRng.Float64() < w.pStale {
 		back := 1 + w.pdRng.Intn(4)
 		if w.pdRng.Intn(5) == 0 {
